@@ -17,6 +17,7 @@ import (
 	"sort"
 	"strconv"
 	"strings"
+	"sync"
 	"unicode/utf8"
 )
 
@@ -265,6 +266,17 @@ func verifPooledCount() int                   { return 0 }
 func verifPermMaps(on bool)                   {}
 func verifFreeze(x interface{}, label string) {}
 func verifUnfreeze()                          {}
+
+var verifWG sync.WaitGroup
+
+func verifGo(f func()) {
+	verifWG.Add(1)
+	go func() {
+		defer verifWG.Done()
+		f()
+	}()
+}
+func verifJoin() { verifWG.Wait() }
 
 func verifRunCase(c verifCase, fn func()) (res verifResult) {
 	res = verifResult{Harness: c.Harness, Idx: c.Idx, Outcome: "end"}
